@@ -37,3 +37,8 @@ register("C16", "exploration",
          "Bounded: the contract of remove_unloaded (exact deleted set = dead logic minus protected nodes, frame on survivors, returned list, idempotence) is evaluated on the real method over an exhaustive small scope and random DAGs.",
          "oracle = reachability via networkx; scope as stated in evidence.bound",
          proof=False, explanation="bounded stand-in of the remove_unloaded contract on the real function")
+
+register("C01", "exploration",
+         "Bounded: solve()/cnf() contract (False iff no consistent valuation agrees with A; result total, Boolean, consistent, agrees with A; cnf models projected on nodes == consistent valuations) checked on the real functions against an independent simulator.",
+         "oracle = vlib.oracle (exhaustive enumeration over free signals + feedback vertex set); pysat shim trusted",
+         explanation="bounded stand-in of the cnf/solve contract")
